@@ -78,7 +78,7 @@ func Scan(w *load.World, c *core.Collector) {
 			c.Add("SCAN", key, core.Undecided, w.Position(f.Pos()), "unexpected parameter list", props...)
 			continue
 		}
-		boundOf := func(v ssa.Value) string {
+		boundOfIn := func(role map[*ssa.Parameter]string, v ssa.Value) string {
 			o := ssax.Prov(v)
 			for p, r := range role {
 				if o["param:"+p.Name()] {
@@ -87,11 +87,11 @@ func Scan(w *load.World, c *core.Collector) {
 			}
 			return ""
 		}
-		ctxOf := func(b *ssa.BasicBlock) string {
+		ctxOfIn := func(fn *ssa.Function, inclusive *ssa.Parameter, b *ssa.BasicBlock) string {
 			if inclusive == nil {
 				return "any"
 			}
-			for _, bb := range f.Blocks {
+			for _, bb := range fn.Blocks {
 				ifi, ok := bb.Instrs[len(bb.Instrs)-1].(*ssa.If)
 				if !ok {
 					continue
@@ -117,92 +117,129 @@ func Scan(w *load.World, c *core.Collector) {
 			return "any"
 		}
 		var rows, bad []string
-		for _, b := range f.Blocks {
-			for _, in := range b.Instrs {
-				switch x := in.(type) {
-				case *ssa.Call:
-					g := x.Call.StaticCallee()
-					if g == nil {
-						continue
-					}
-					name := g.String()
-					if name != "bytes.Compare" && name != "bytes.Equal" && name != "bytes.HasPrefix" {
-						continue
-					}
-					bound, argPos := "", -1
-					for i, a := range x.Call.Args {
-						if r := boundOf(a); r != "" {
-							bound, argPos = r, i
+		var visit func(fn *ssa.Function, role map[*ssa.Parameter]string, inclusive *ssa.Parameter, outer string, depth int)
+		visit = func(fn *ssa.Function, role map[*ssa.Parameter]string, inclusive *ssa.Parameter, outer string, depth int) {
+			boundOf := func(v ssa.Value) string { return boundOfIn(role, v) }
+			ctxOf := func(b *ssa.BasicBlock) string {
+				if c := ctxOfIn(fn, inclusive, b); c != "any" || outer == "" {
+					return c
+				}
+				return outer
+			}
+			for _, b := range fn.Blocks {
+				for _, in := range b.Instrs {
+					switch x := in.(type) {
+					case *ssa.Call:
+						g := x.Call.StaticCallee()
+						if g == nil {
+							continue
 						}
-					}
-					if bound == "" {
-						continue
-					}
-					ctx := ctxOf(b)
-					switch name {
-					case "bytes.HasPrefix":
-						row := fmt.Sprintf("%s HasPrefix(%s) %s", bound, map[int]string{0: "bound,key", 1: "key,bound"}[argPos], ctx)
-						rows = append(rows, row)
-						if !(bound == "prefix" && argPos == 1) {
-							bad = append(bad, row+": a prefix test decides a range bound (a key that merely starts with the bound is treated as equal to it)")
+						name := g.String()
+						if name == "strings.HasPrefix" {
+							name = "bytes.HasPrefix"
 						}
-					case "bytes.Equal":
-						row := fmt.Sprintf("%s Equal %s", bound, ctx)
-						rows = append(rows, row)
-						if !(bound == "start" && ctx == "exclusive") && bound != "prefix" {
-							bad = append(bad, row+": equality with this bound is only meaningful for skipping an exclusive start")
+						if ssax.InModule(g) && len(g.Blocks) > 0 && depth < 3 && g != fn {
+							// a predicate helper: the bounds and the inclusive flag reach it as arguments
+							sub := map[*ssa.Parameter]string{}
+							var subIncl *ssa.Parameter
+							for i, a := range x.Call.Args {
+								if i >= len(g.Params) {
+									break
+								}
+								if r := boundOf(a); r != "" {
+									// the key itself also derives from no bound; only pure bound arguments count
+									if _, isParam := role[paramOfValue(a)]; isParam || boundOnly(a, role) {
+										sub[g.Params[i]] = r
+									}
+								}
+								if inclusive != nil && a == ssa.Value(inclusive) {
+									subIncl = g.Params[i]
+								}
+							}
+							if len(sub) > 0 {
+								visit(g, sub, subIncl, ctxOf(b), depth+1)
+							}
+							continue
 						}
-					case "bytes.Compare":
-						for _, r := range *x.Referrers() {
-							bo, ok := r.(*ssa.BinOp)
-							if !ok {
-								continue
+						if name != "bytes.Compare" && name != "bytes.Equal" && name != "bytes.HasPrefix" {
+							continue
+						}
+						bound, argPos := "", -1
+						for i, a := range x.Call.Args {
+							if r := boundOf(a); r != "" {
+								bound, argPos = r, i
 							}
-							op := bo.Op
-							zero, isC := ssax.ConstInt(bo.Y)
-							if bo.X != ssa.Value(x) {
-								zero, isC = ssax.ConstInt(bo.X)
-								// constant on the left: mirror the operator
-								op = map[token.Token]token.Token{token.LSS: token.GTR, token.GTR: token.LSS, token.LEQ: token.GEQ, token.GEQ: token.LEQ, token.EQL: token.EQL, token.NEQ: token.NEQ}[bo.Op]
-							}
-							if !isC || zero != 0 {
-								bad = append(bad, fmt.Sprintf("%s Compare result compared with something other than 0", bound))
-								continue
-							}
-							if argPos == 0 {
-								// Compare(bound, key): mirror
-								op = map[token.Token]token.Token{token.LSS: token.GTR, token.GTR: token.LSS, token.LEQ: token.GEQ, token.GEQ: token.LEQ, token.EQL: token.EQL, token.NEQ: token.NEQ}[op]
-							}
-							row := fmt.Sprintf("%s Compare(key,bound) %s 0 %s", bound, op, ctx)
+						}
+						if bound == "" {
+							continue
+						}
+						ctx := ctxOf(b)
+						switch name {
+						case "bytes.HasPrefix":
+							row := fmt.Sprintf("%s HasPrefix(%s) %s", bound, map[int]string{0: "bound,key", 1: "key,bound"}[argPos], ctx)
 							rows = append(rows, row)
-							okRow := false
-							switch {
-							case bound == "end" && ctx == "inclusive" && op == token.GTR,
-								bound == "end" && ctx == "exclusive" && op == token.GEQ,
-								bound == "start" && ctx == "inclusive" && op == token.LSS,
-								bound == "start" && ctx == "exclusive" && op == token.LEQ,
-								bound == "start" && ctx == "exclusive" && op == token.EQL:
-								okRow = true
+							if !(bound == "prefix" && argPos == 1) {
+								bad = append(bad, row+": a prefix test decides a range bound (a key that merely starts with the bound is treated as equal to it)")
 							}
-							if !okRow {
-								bad = append(bad, row+": not the comparison this bound needs under this inclusiveness")
+						case "bytes.Equal":
+							row := fmt.Sprintf("%s Equal %s", bound, ctx)
+							rows = append(rows, row)
+							if !(bound == "start" && ctx == "exclusive") && bound != "prefix" {
+								bad = append(bad, row+": equality with this bound is only meaningful for skipping an exclusive start")
+							}
+						case "bytes.Compare":
+							for _, r := range *x.Referrers() {
+								bo, ok := r.(*ssa.BinOp)
+								if !ok {
+									continue
+								}
+								op := bo.Op
+								zero, isC := ssax.ConstInt(bo.Y)
+								if bo.X != ssa.Value(x) {
+									zero, isC = ssax.ConstInt(bo.X)
+									// constant on the left: mirror the operator
+									op = map[token.Token]token.Token{token.LSS: token.GTR, token.GTR: token.LSS, token.LEQ: token.GEQ, token.GEQ: token.LEQ, token.EQL: token.EQL, token.NEQ: token.NEQ}[bo.Op]
+								}
+								if !isC || zero != 0 {
+									bad = append(bad, fmt.Sprintf("%s Compare result compared with something other than 0", bound))
+									continue
+								}
+								if argPos == 0 {
+									// Compare(bound, key): mirror
+									op = map[token.Token]token.Token{token.LSS: token.GTR, token.GTR: token.LSS, token.LEQ: token.GEQ, token.GEQ: token.LEQ, token.EQL: token.EQL, token.NEQ: token.NEQ}[op]
+								}
+								row := fmt.Sprintf("%s Compare(key,bound) %s 0 %s", bound, op, ctx)
+								rows = append(rows, row)
+								okRow := false
+								switch {
+								case bound == "end" && ctx == "inclusive" && op == token.GTR,
+									bound == "end" && ctx == "exclusive" && op == token.GEQ,
+									bound == "start" && ctx == "inclusive" && op == token.LSS,
+									bound == "start" && ctx == "exclusive" && op == token.LEQ,
+									bound == "start" && ctx == "exclusive" && op == token.EQL:
+									okRow = true
+								}
+								if !okRow {
+									bad = append(bad, row+": not the comparison this bound needs under this inclusiveness")
+								}
 							}
 						}
-					}
-				case *ssa.BinOp:
-					// k[:len(prefix)] == string(prefix) in the in-memory PrefixScan
-					if x.Op == token.EQL && f.Name() == "PrefixScan" {
-						if boundOf(x.X) == "prefix" || boundOf(x.Y) == "prefix" {
-							if _, isSl := x.X.(*ssa.Slice); isSl {
-								rows = append(rows, "prefix slice-equal")
-							} else if _, isSl := x.Y.(*ssa.Slice); isSl {
-								rows = append(rows, "prefix slice-equal")
+					case *ssa.BinOp:
+						// k[:len(prefix)] == string(prefix) in the in-memory PrefixScan
+						if x.Op == token.EQL && f.Name() == "PrefixScan" {
+							if boundOf(x.X) == "prefix" || boundOf(x.Y) == "prefix" {
+								if _, isSl := x.X.(*ssa.Slice); isSl {
+									rows = append(rows, "prefix slice-equal")
+								} else if _, isSl := x.Y.(*ssa.Slice); isSl {
+									rows = append(rows, "prefix slice-equal")
+								}
 							}
 						}
 					}
 				}
 			}
 		}
+		visit(f, role, inclusive, "", 0)
 		sort.Strings(rows)
 		need := map[string][]string{"RangeScan": {"end"}, "PrefixScan": {"prefix"}}[f.Name()]
 		for _, nd := range need {
@@ -226,5 +263,27 @@ func Scan(w *load.World, c *core.Collector) {
 	c.Count("scan_implementations", n)
 	if n < 4 {
 		c.Add("SCAN", "anchor:implementations", core.Undecided, "", fmt.Sprintf("found %d RangeScan/PrefixScan implementations with a body, expected 4", n), props...)
+	}
+}
+
+func paramOfValue(v ssa.Value) *ssa.Parameter {
+	p, _ := v.(*ssa.Parameter)
+	return p
+}
+
+// boundOnly: the value is a bound parameter seen through conversions only.
+func boundOnly(v ssa.Value, role map[*ssa.Parameter]string) bool {
+	for {
+		switch x := v.(type) {
+		case *ssa.Parameter:
+			_, ok := role[x]
+			return ok
+		case *ssa.Convert:
+			v = x.X
+		case *ssa.ChangeType:
+			v = x.X
+		default:
+			return false
+		}
 	}
 }
